@@ -133,13 +133,12 @@ def verdictFields (v : Verdict) (dom : Bool) : List (String × Json) :=
 def contractOk (d : LDoc) : Bool :=
   extentsB d.text d.toks && cutsB d.text d.toks && (mappedBody d.toks).all (lineOk d.text)
 
-/-- ... together with the guards of `ordered_disjoint_inline_partial` and `covers_lexeme_partial`
-    (every piece ends inside its line; no comment value ends with a CR): when they hold the
-    theorems say the model's tokens are ordered, disjoint, inside their lines, and every token
-    that is not cut out of a comment covers its lexeme. -/
+/-- ... together with the one guard of `ordered_disjoint_inline_partial` and
+    `covers_lexeme_partial` (no comment value ends with a CR): when they hold the theorems say
+    the model's tokens are ordered, disjoint, inside their lines, and every token that is not
+    cut out of a comment covers its lexeme. -/
 def hypOk (d : LDoc) : Bool :=
-  contractOk d && inlineB (lineLens16 d.text) d.cls d.text d.toks &&
-  (mappedBody d.toks).all fun t => !devCrComment t
+  contractOk d && (mappedBody d.toks).all fun t => !devCrComment t
 
 def tokens (j : Json) : Json :=
   let d := parseDoc (jget j "doc")
